@@ -21,7 +21,10 @@ NAMES = ["Testname", "x", "Lobby (version 01)", "a (version 99) b", "(version 07
          "٠٠٠٠١-٠٠٠٢-٠٠٠٣-٠٤ arabic digits",
          # characters that mean something to a formatting or pattern language the name might be pushed through
          "{", "}", "{}", "{0}", "{name}", "{{site}} door", "Reader {A}", "cfg {", "%s", "%d %", "100%", "\\d+", "a\\1", "$0", "^x$", ".*",
-         "[a-z]", "a|b", "x?", "(?P<n>y)", "\\", "'", '"', "name\u2028x", "a\x00b"]
+         "[a-z]", "a|b", "x?", "(?P<n>y)", "\\", "'", '"', "name\u2028x", "a\x00b",
+         # an identifier-shaped group that is NOT at the start of the name (the numeric form is only recognised at the start)
+         "foo 12345-1234-1234-12", "x12345-0001-0000-01", "copy of 00001-0002-0003-04 door reader", "112345-1234-1234-12",
+         "see 12345-1234-1234-12"]
 
 
 def sid(c, p, d, v, name):
@@ -68,11 +71,12 @@ def run(ctx):
     base = ["10234-5678-6789-09 Testname", "10234-5678-6789-09", "Lobby (version 01) (version 05)", "x (version 03)", "",
             "10234-5678-6789-9 x", "1234-5678-6789-09", "10234-5678-6789-09x", "10234-5678-6789-09  two spaces",
             "a\n (version 03)", "a (version 03)\nb", "a (version 03", "(version 03)", " (version 03)", "a (version 3)",
-            "٠٠٠٠١-٠٠٠٢-٠٠٠٣-٠٤ x", "a (version ٠٣)", "10234-5678-6789-09 line\nnext", "09999-0001-0002-03 n", "a (version 03) (version x)"]
+            "٠٠٠٠١-٠٠٠٢-٠٠٠٣-٠٤ x", "a (version ٠٣)", "10234-5678-6789-09 line\nnext", "09999-0001-0002-03 n", "a (version 03) (version x)",
+            "foo 12345-1234-1234-12 (version 03)", "x12345-1234-1234-12", "a\n12345-1234-1234-12 b", "see 12345-1234-1234-12 for details"]
     texts += base
     for _ in range(300 if ctx.quick else 20000):
         t = rng.choice(base)
-        k = rng.randrange(4)
+        k = rng.randrange(5)
         if k == 0 and t:
             i = rng.randrange(len(t))
             t = t[:i] + rng.choice("0123456789- ()vx\n٣") + t[i + 1:]
@@ -81,6 +85,10 @@ def run(ctx):
             t = t[:i] + t[i + 1:]
         elif k == 2:
             t = t + rng.choice([" (version 07)", " x", "-", "0"])
+        elif k == 3:
+            ins = rng.choice(["x", " ", "foo ", "1", "see ", "\n", "0", "-", "(", "copy of "])
+            i = 0 if rng.random() < 0.6 else rng.randrange(len(t) + 1)
+            t = t[:i] + ins + t[i:]
         texts.append(t)
     tl = [hx(t.encode()) for t in texts]
     ctx.correspond([f"cfgid.parse {t}" for t in tl], "cfgid.parse")
